@@ -6,7 +6,7 @@ import ast
 import re
 
 from ..cfg import cfg_of
-from ..core import AnalysisError, FuncInfo, call_name, const_value, dotted, unparse, walk_no_nested
+from ..core import seq, AnalysisError, FuncInfo, call_name, const_value, dotted, unparse, walk_no_nested
 from ..pattern import body_is, find, find_expr, has, has_expr
 from ..report import Ctx
 
@@ -50,6 +50,8 @@ def run(ctx: Ctx) -> None:
              'parameter file, caller-named sampling file, TemporaryFile; get_new_file_name loops while the candidate exists')
     ctx.rule('C14.R2', 'reports list every parameter: the parameter table has one row per estimated parameter and HTML, LaTeX, F12 and the printed form iterate all of it')
     ctx.rule('C14.R3', 're-derivation on load: every normal exit of bioResults.__init__ passes through _calculate_stats; write_pickle dumps exactly self.data')
+    ctx.rule('C14.R5', 'writer <-> reader of file names: the patterns with which a model looks for its own files (files_of_type, used by recycle) are the name templates of get_new_file_name '
+             '(name.ext, name~NN.ext); a wildcard directly after the model name also matches the files of other models')
     ctx.rule('C14.R4', 'boolean coding and parameter round trip: booleans are written as members of TRUE_STR/FALSE_STR and parsed back iff the declared type is bool; '
              'every other value read from the file is used as it is (only a missing value falls back to the default); for all defaults type and value agree')
     ctx.not_decided += ['equality of re-read values (pickle / TOML library semantics)']
@@ -144,6 +146,59 @@ for _N in _NAMES:
     loads = [x for x in walk_no_nested(init.node) if isinstance(x, ast.Assign) and unparse(x.targets[0]) == 'self.data' and isinstance(x.value, ast.Call) and dotted(x.value.func) == 'pickle.load']
     ok = len(loads) >= 1
     ctx.add('C14.R3', 'bioResults.__init__:load', ok, init, 'the pickle is loaded into self.data' if ok else 'pickle no longer loaded into self.data', 'load')
+
+    # the files a model finds again (recycle) are the files it writes: name.ext and name~NN.ext, nothing else
+    def shape_of(e, names):
+        """a name template as text: the parts that stand for the model name / the extension / a number -> N / E / *"""
+        from ..normal import fold_string
+
+        if isinstance(e, ast.BinOp) and isinstance(e.op, ast.Add):
+            l_, r_ = shape_of(e.left, names), shape_of(e.right, names)
+            return None if l_ is None or r_ is None else l_ + r_
+        if isinstance(e, ast.Constant) and isinstance(e.value, str):
+            return e.value
+        if isinstance(e, ast.JoinedStr):
+            out = ''
+            for v in e.values:
+                t = shape_of(v.value if isinstance(v, ast.FormattedValue) else v, names)
+                if t is None:
+                    return None
+                out += t
+            return out
+        return names.get(unparse(e))
+
+    gn = prog.func('filenames', 'get_new_file_name')
+    fo = prog.cls('biogeme', 'BIOGEME').methods['files_of_type']
+    from ..core import inline_locals
+
+    pn, pe = gn.positional_params()[:2]
+    counters = {unparse(x.target) for x in walk_no_nested(gn.node) if isinstance(x, ast.AugAssign)}
+    wnames = {pn: 'N', pe: 'E', **{c_: '*' for c_ in counters}}
+    written = {shape_of(a.value, wnames) for a in walk_no_nested(gn.node) if isinstance(a, ast.Assign) and isinstance(a.value, (ast.JoinedStr, ast.BinOp))}
+    ext_p = fo.positional_params()[1]
+    globs = [c for c in walk_no_nested(fo.node) if isinstance(c, ast.Call) and dotted(c.func) == 'glob.glob' and c.args]
+    def arg_of(c):
+        a = c.args[0]
+        if isinstance(a, ast.Name):
+            # the assignment that reaches the call: the nearest one before it (each branch of files_of_type defines its own)
+            defs = [d for d in walk_no_nested(fo.node) if isinstance(d, ast.Assign) and unparse(d.targets[0]) == a.id and seq(d) < seq(c)]
+            if defs:
+                return max(defs, key=seq).value
+        return inline_locals(fo.node, a)
+
+    found = {shape_of(arg_of(c), {'self.modelName': 'N', ext_p: 'E'}) for c in globs}
+    found.discard('*.E')  # (the all_files branch)
+    if None in written or None in found or not written or not found:
+        ctx.add('C14.R5', 'files_of_type:patterns', None, fo, f'name templates not in the expected form: written {sorted(map(str, written))}, searched {sorted(map(str, found))}', 'patterns')
+    else:
+        greedy = sorted(t for t in found if t.startswith('N*'))
+        if greedy:
+            ctx.add('C14.R5', 'files_of_type:patterns', False, fo, f'files are searched with the pattern {greedy[0]} (N = model name, E = extension): it also matches the files of every other model whose name begins with this '
+                    f'model\'s name; recycle then loads the results of another model. The files of a model are {sorted(written)}', str(sorted(found)), positive=True)
+        else:
+            ok = found == written
+            ctx.add('C14.R5', 'files_of_type:patterns', ok if ok else None, fo, f'the files searched for a model are the files written for it: {sorted(found)}' if ok else
+                    f'the patterns searched {sorted(found)} are not in the expected form (the names written are {sorted(written)})', str(sorted(found)))
 
     pm = prog.module('parameters')
     T = pm.assigns.get('TRUE_STR')
